@@ -1981,3 +1981,48 @@ mod test {
         assert!(!cache.contains(&1));
     }
 }
+
+// ---------------------------------------------------------------------------------------------
+// verification hooks (feature `verif-hooks`): read-only views and state assembly.
+#[cfg(feature = "verif-hooks")]
+#[doc(hidden)]
+impl<K: Hash + Eq, V, RH: BuildHasher, REH: BuildHasher, FH: BuildHasher, FEH: BuildHasher>
+    AdaptiveCache<K, V, RH, REH, FH, FEH>
+{
+    /// (recent, recent_evict, frequent, frequent_evict)
+    #[allow(clippy::type_complexity)]
+    pub fn verif_parts(
+        &self,
+    ) -> (
+        &RawLRU<K, V, DefaultEvictCallback, RH>,
+        &RawLRU<K, V, DefaultEvictCallback, REH>,
+        &RawLRU<K, V, DefaultEvictCallback, FH>,
+        &RawLRU<K, V, DefaultEvictCallback, FEH>,
+    ) {
+        (
+            &self.recent,
+            &self.recent_evict,
+            &self.frequent,
+            &self.frequent_evict,
+        )
+    }
+
+    /// Assembles a cache from already built lists.
+    pub fn verif_from_parts(
+        size: usize,
+        p: usize,
+        recent: RawLRU<K, V, DefaultEvictCallback, RH>,
+        recent_evict: RawLRU<K, V, DefaultEvictCallback, REH>,
+        frequent: RawLRU<K, V, DefaultEvictCallback, FH>,
+        frequent_evict: RawLRU<K, V, DefaultEvictCallback, FEH>,
+    ) -> Self {
+        Self {
+            size,
+            p,
+            recent,
+            recent_evict,
+            frequent,
+            frequent_evict,
+        }
+    }
+}
